@@ -67,8 +67,8 @@ Definition cset (c : Z) (i : subinfo) (m : cmap) : cmap := (c, i) :: cremove c m
 
 Fixpoint zmem (x : Z) (l : list Z) : bool :=
   match l with [] => false | y :: r => (x =? y) || zmem x r end.
-Fixpoint zremove (x : Z) (l : list Z) : list Z :=
-  match l with [] => [] | y :: r => if x =? y then zremove x r else y :: zremove x r end.
+Fixpoint zdrop (x : Z) (l : list Z) : list Z :=
+  match l with [] => [] | y :: r => if x =? y then zdrop x r else y :: zdrop x r end.
 
 Definition g_subs (name : bytes) (g : gmap) : list Z :=
   match alookup name g with Some l => l | None => [] end.
@@ -81,7 +81,7 @@ Definition g_add (name : bytes) (c : Z) (g : gmap) : gmap :=
 (** get_mut(name): remove c; remove the entry when it became empty *)
 Definition g_del (name : bytes) (c : Z) (g : gmap) : gmap :=
   match alookup name g with
-  | Some subs => match zremove c subs with
+  | Some subs => match zdrop c subs with
                  | [] => aremove name g
                  | subs' => aset name subs' g
                  end
@@ -89,7 +89,7 @@ Definition g_del (name : bytes) (c : Z) (g : gmap) : gmap :=
   end.
 (** unsubscribe_all: remove c from every entry, then remove the empty entries *)
 Definition g_purge (c : Z) (g : gmap) : gmap :=
-  filter (fun e => negb (is_nil (snd e))) (map (fun e => (fst e, zremove c (snd e))) g).
+  filter (fun e => negb (is_nil (snd e))) (map (fun e => (fst e, zdrop c (snd e))) g).
 
 (** SubResult (the subscription kind is determined by the operation) *)
 Record subres := { r_name : bytes; r_count : Z; r_new : bool }.
